@@ -26,7 +26,8 @@ from floatcmp import f2b, b2f  # noqa: E402
 from parallel import driver_parallel  # noqa: E402
 
 GEN = ['KernF', 'KernR']
-PROPS = ['FinVerif.Props.C20a', 'FinVerif.Props.C20b', 'FinVerif.Props.C20c', 'FinVerif.Props.C20d', 'FinVerif.Props.C20e']
+PROPS = ['FinVerif.Props.C20a', 'FinVerif.Props.C20b', 'FinVerif.Props.C20c', 'FinVerif.Props.C20d', 'FinVerif.Props.C20e',
+         'FinVerif.Props.C20f', 'FinVerif.Props.C20g', 'FinVerif.Props.C20h', 'FinVerif.Props.C20i', 'FinVerif.Props.C20j', 'FinVerif.Props.C20k', 'FinVerif.Props.C20l', 'FinVerif.Props.C20m', 'FinVerif.Props.C20n', 'FinVerif.Props.C20o']
 DRIVERS = ['FinVerif.Driver.C20']
 
 RULE = ('scalar kernels: dense grid on [-38,38] (step 0.025) + seeded uniform/normal samples + boundary values '
@@ -379,10 +380,26 @@ def phi2_section(ctx, meas, drivers_ok):
         comp = [call(fn, *c) for c in sub]
         pyv = [call(pf, *c) for c in sub]
         ops = [f'phi2 {f2b(c[0])} {f2b(c[1])} {f2b(c[2])}' for c in sub]
-        three_streams(ctx, meas, name, ops, [{'h': c[0], 'k': c[1], 'r': c[2]} for c in sub], comp, pyv, drivers_ok,
-                      **TOL_PHI2_MODEL)
+        model = three_streams(ctx, meas, name, ops, [{'h': c[0], 'k': c[1], 'r': c[2]} for c in sub], comp, pyv, drivers_ok,
+                              **TOL_PHI2_MODEL)
         if name != 'phi2':
             continue
+        if drivers_ok:
+            # the generic model `phi2G` (Model/C20Phi2G.lean; the subject of the theorems of Props/C20h.lean) at Float: must be
+            # the implementation within the same tolerance, and bit for bit the older Float-only model
+            try:
+                mg = [parse_model(t) for t in driver_parallel('C20', ['phi2g' + o[4:] for o in ops])]
+                nb = 0
+                for i, c in enumerate(sub):
+                    okm = model is None or same(mg[i], model[i], 0.0, 0.0)
+                    if not (same(pyv[i], mg[i], **TOL_PHI2_MODEL) and okm):
+                        nb += 1
+                        if nb <= 3:
+                            ctx.broke(f'correspondence phi2 (generic model phi2G): model {show(mg[i])} != implementation '
+                                      f'{show(pyv[i])} / Float model {show(model[i]) if model else None} on {c}')
+                ctx.count('phi2 (generic model phi2G)', len(sub), len(sub))
+            except C.DriverError as e:
+                ctx.broke(f'model driver failed on phi2g: {str(e)[:300]}')
         nbad = 0
         step = 1 if not ctx.quick() else 3
         for c, v in list(zip(sub, comp))[::step]:
@@ -867,10 +884,10 @@ def solvers_section(ctx, meas, drivers_ok):
     ctx.cov['components']['newton_secant']['flat_starts_not_reported'] = nsilent
     ctx.cov['components']['newton_secant']['unexplained_nonroots'] = nnonroot
 
-    halley_and_secant_branch(ctx, meas, S, fams, flats)
+    halley_and_secant_branch(ctx, meas, S, fams, flats, drivers_ok)
 
 
-def halley_and_secant_branch(ctx, meas, S, fams, flats):
+def halley_and_secant_branch(ctx, meas, S, fams, flats, drivers_ok=False):
     """the two remaining root-finding paths of solver_1d.newton (no Lean model: oracles only): Halley (fprime2 given) and
     the plain-Python secant branch (fprime=None).  Clause: a returned number is a root to tolerance, otherwise the
     failure is reported (None / FinError)."""
@@ -889,6 +906,7 @@ def halley_and_secant_branch(ctx, meas, S, fams, flats):
 
     # ---- Halley
     nnt = 0
+    hops, hinputs, himpl = [], [], []
     for a in cases:
         x0 = rng.uniform(-5, 5) if a[0] < 2 else flat_start(rng, a)
         tol = rng.choice([1.48e-8, 1e-10, 1e-6])
@@ -900,6 +918,9 @@ def halley_and_secant_branch(ctx, meas, S, fams, flats):
             return fam_f(x, args)
         v = call(S.newton, f, x0, fam_d, a, tol, mi, fam_d2)
         case = {'solver': 'newton', 'method': 'halley', 'fam': a[0], 'coef': a[1:], 'x0': x0, 'tol': tol, 'maxiter': mi}
+        hops.append(f'halley {a[0]} ' + ' '.join(f2b(c) for c in a[1:]) + f' {f2b(x0)} {f2b(tol)} {mi}')
+        hinputs.append(case)
+        himpl.append(v)
         if v[0] == 'f':
             nnt += 1
             if not root_ok(a, v[1], tol):
@@ -910,8 +931,64 @@ def halley_and_secant_branch(ctx, meas, S, fams, flats):
             ctx.violation('newton (Halley) raised on valid arguments', dict(case, got=show(v)), clause='failure-reported')
     ctx.count('newton-halley', len(cases), nnt)
 
+    # correspondence of the Halley path with its Lean model (Model/C20Halley.lean: halleyLoop / newtonHalley; theorems in
+    # Props/C20f.lean).  Plain Python in the package: the compiled stream is the interpreted one.
+    def halley_equiv(inp, x, y):
+        # same convention as for the Newton path: a run that wanders (budget exhausted) is chaotic
+        if x[0] != 'f' or y[0] != 'f':
+            return False
+        a = (inp['fam'],) + tuple(inp['coef'])
+
+        def root(r):
+            return abs(fam_f(r, a)) <= 1e-5 * max(abs(fam_d(r, a)), 1.0)
+        return root(x[1]) == root(y[1])
+    three_streams(ctx, meas, 'newton-halley (model)', hops, hinputs, himpl, himpl, drivers_ok, rtol=1e-7, atol=1e-9,
+                  equiv=halley_equiv)
+
+    # start-point perturbation of the two secant variants (theorems secantStart_ne / secantStart_dist /
+    # secantStartNewton_ne / secantStart_eq_secantStartNewton_iff): the second abscissa the code evaluates, observed through
+    # a recording objective, is compared bit for bit with the model expression; and p1 != p0 is checked on the code itself.
+    xs0 = [0.0, -0.0, 1.0, -1.0, 1e-4, -1e-4, 1e-300, -1e-300, 1e8, -1e8, 5e-324, -5e-324, 1e-4 / (1 + 1e-4), -1e-4 / (1 + 1e-4)]
+    xs0 += [rng.uniform(-5, 5) for _ in range(40)] + [rng.choice([-1, 1]) * 10 ** rng.uniform(-12, 6) for _ in range(40)]
+    sops, sgot, sin_ = [], [], []
+    for x0 in xs0:
+        for variant in ('newton_secant', 'newton'):
+            evals = []
+
+            def rec(x, *aa, evals=evals):
+                evals.append(x)
+                return 1.0 + 0.5 * x     # affine: no flat secant, returns after the first update
+            if variant == 'newton_secant':
+                call(S.newton_secant.py_func, rec, x0, (), 1e-8, 1, False)
+                sops.append(f'sstart {f2b(x0)}')
+            else:
+                call(S.newton, rec, x0, None, (), 1e-8, 1)
+                sops.append(f'sstart2 {f2b(x0)}')
+            case = {'solver': variant, 'clause': 'start points', 'x0': x0, 'evaluated': evals[:2]}
+            sin_.append(case)
+            if len(evals) < 2:
+                ctx.violation(f'{variant}: fewer than two starting evaluations', case, clause='solves-or-reports')
+                sgot.append(('n',))
+                continue
+            sgot.append(('f', float(evals[1])))
+            if not (evals[0] == x0 and evals[1] != evals[0]):
+                ctx.violation(f'{variant}: the two starting abscissae coincide (p1 == p0) or p0 != x0', case, clause='failure-reported')
+    if drivers_ok:
+        try:
+            sm = [parse_model(t) for t in driver_parallel('C20', sops)]
+            nb = 0
+            for case, g, m in zip(sin_, sgot, sm):
+                if g[0] == 'f' and not same(g, m, 0.0, 0.0):
+                    nb += 1
+                    if nb <= 3:
+                        ctx.broke(f'correspondence secant start point: Lean model {show(m)} != implementation {show(g)} on {case}')
+        except C.DriverError as e:
+            ctx.broke(f'model driver failed on secant start points: {str(e)[:300]}')
+    ctx.count('secant-start-points', len(sops), len(sops))
+
     # ---- secant branch of newton (fprime=None)
     nnt = 0
+    nops, ninputs, nimpl = [], [], []
     for a in cases:
         x0 = rng.uniform(-5, 5) if a[0] < 2 else flat_start(rng, a)
         tol = rng.choice([1.48e-8, 1e-10, 1e-6])
@@ -928,6 +1005,9 @@ def halley_and_secant_branch(ctx, meas, S, fams, flats):
             evals.append((x, y))
             return y
         v = call(S.newton, g, x0, None, a, tol, mi)
+        nops.append(f'nsecant {a[0]} ' + ' '.join(f2b(c) for c in a[1:]) + f' {f2b(x0)} {f2b(tol)} {mi}')
+        ninputs.append(case)
+        nimpl.append(v)
         # the objective with the signature every other path of the module uses: f(x, args)
         u = call(S.newton, fam_f, x0, None, a, tol, mi)
         if u == ('e', 'TypeError') and v != u:
@@ -954,6 +1034,10 @@ def halley_and_secant_branch(ctx, meas, S, fams, flats):
         elif v[0] == 'e':
             ctx.violation('newton (secant branch) raised on valid arguments', dict(case, got=show(v)), clause='failure-reported')
     ctx.count('newton-secant-branch', len(cases), nnt)
+    # correspondence of the secant path with its Lean model (Model/C20Halley.lean: newtonSecLoop / newtonSec; theorems in
+    # Props/C20o.lean), observed with the objective that accepts both calling conventions (finding newton-secant-branch-unpacks-args)
+    three_streams(ctx, meas, 'newton-secant-branch (model)', nops, ninputs, nimpl, nimpl, drivers_ok, rtol=1e-7, atol=1e-9,
+                  equiv=halley_equiv)
 
 
 # ------------------------------------------------------------------------------------------- linear algebra
@@ -1511,7 +1595,7 @@ def run(ctx):
         'scipy.special.ndtr / ndtri and scipy.stats.multivariate_normal are the accuracy references (mpmath is absent)',
     ]
     return C.finish(ctx, 'proof',
-                    'lake build FinVerif.Props.C20a FinVerif.Props.C20b FinVerif.Props.C20c FinVerif.Props.C20d FinVerif.Props.C20e && lake env lean .cache/audit/Audit_C20.lean',
+                    'lake build ' + ' '.join(PROPS) + ' && lake env lean .cache/audit/Audit_C20.lean',
                     C.TRUSTED_BASE_COMMON + ['SciPy special / stats as accuracy reference',
                                              'hand models Model/C20.lean, Model/C20Phi2.lean, Model/C20Sobol.lean tied by correspondence only'],
                     RULE)
